@@ -1,6 +1,7 @@
 package main
 
 import (
+	"encoding/json"
 	"fmt"
 	"strconv"
 	"strings"
@@ -93,7 +94,7 @@ func c04(r *mon.Run) {
 	r.Exhaustive = true
 	r.Floor = 1000
 	r.Assumptions = []string{"ref.Accepts is the published ABNF (calibrated: accepts the 724 valid and rejects the 93 syntactically invalid expressions of the compliance suite)",
-		"the enumerations use valid lexemes (well-formed JSON literal, 64-bit numbers); the inside of quoted identifiers (every ASCII byte raw and escaped, \\u forms) and of numbers (leading zeros, signs) is judged against the lexical ABNF by the inside-lexemes workload; raw strings and literals are C14's (their ABNF and the implementation's json decoding differ on control characters, which no property fixes)"}
+		"the enumerations use valid lexemes (well-formed JSON literal, 64-bit numbers); the inside of quoted identifiers (every ASCII byte raw and escaped, \\u forms) and of numbers (leading zeros, signs) is judged against the lexical ABNF by the inside-lexemes workload; JSON literals are judged by encoding/json's validity check on the text between the backticks (16 values x 19 corruptions x 4 contexts); raw strings are C14's"}
 	A := len(c04Alphabet)
 	offs := []int{0}
 	pow := 1
@@ -317,6 +318,26 @@ func c04Long(r *mon.Run) {
 		for k, f := range []string{"a[%s]", "a[%s:]", "a[:%s]", "a[::%s]", "a[%s:%s:%s]", "[%s]", "a[*][%s]", "a.b[%s].c"} {
 			e := strings.ReplaceAll(f, "%s", n)
 			lxs = append(lxs, lx{e, ok, fmt.Sprintf("number spelling %q in bracket position %d", n, k)})
+		}
+	}
+	// JSON literals: ` json-value ` — the text between the backticks (with \` for a backtick) must be one JSON
+	// value and nothing else; judged by encoding/json's own validity check on the unescaped text
+	jsonTexts := []string{"1", "-0.5e3", "\"s\"", "null", "true", "[]", "[1]", "[1, [2]]", "{}", "{\"a\": 1}", "{\"a\": [1, {\"b\": null}]}", "\"a\\\"b\"", " 1 ", "\"\\u00e9\"", "[\"]\"]", "{\"}\": \"{\"}"}
+	corrupt := []func(string) string{
+		func(t string) string { return t }, func(t string) string { return t + "]" }, func(t string) string { return t + "}" }, func(t string) string { return t + " ]" }, func(t string) string { return t + "} x" },
+		func(t string) string { return t + " 2" }, func(t string) string { return t + "," }, func(t string) string { return t + "x" }, func(t string) string { return "[" + t }, func(t string) string { return "]" + t },
+		func(t string) string { return t + " null" }, func(t string) string { return t + "\n" }, func(t string) string { return t[:len(t)-1] }, func(t string) string { return t + t }, func(t string) string { return t + " // c" },
+		func(t string) string { return "{" + t + "}" }, func(t string) string { return "[" + t + ",]" }, func(t string) string { return "[" + t + "]" }, func(t string) string { return t + "\x00" },
+	}
+	lctx := []func(string) string{func(l string) string { return l }, func(l string) string { return "foo[?a == " + l + "]" }, func(l string) string { return "[" + l + ", a]" }, func(l string) string { return l + " | [0]" }}
+	for _, jt := range jsonTexts {
+		for k, cf := range corrupt {
+			body := cf(jt)
+			ok := json.Valid([]byte(body)) && strings.TrimSpace(body) != ""
+			lit := "`" + strings.ReplaceAll(body, "`", "\\`") + "`"
+			for q, c := range lctx {
+				lxs = append(lxs, lx{c(lit), ok, fmt.Sprintf("JSON literal %q (corruption %d, context %d)", body, k, q)})
+			}
 		}
 	}
 	w3 := mon.Workload{Name: "inside-lexemes", N: len(lxs),
